@@ -373,6 +373,32 @@ def main(prop, argv):
 
     verdict = 0
     replay_path = None
+    # a concrete violation must reproduce: real-thread harnesses can mis-observe under machine load, and a replay
+    # that does not replay is of no use.  Re-run each candidate (up to 2 more times); keep it if it fails again.
+    unreproducible = []
+    if concrete:
+        confirmed = []
+        for case, obs, v in concrete:
+            again = False
+            for _ in range(2):
+                try:
+                    o2 = prop.run_impl(case)
+                    v2 = prop.oracle(case, o2)
+                except (Infra, subprocess.TimeoutExpired):
+                    v2 = []
+                if v2:
+                    again = True
+                    break
+            if again:
+                confirmed.append((case, obs, v))
+            else:
+                unreproducible.append({'case': case, 'violations': v})
+        concrete = confirmed
+        stats['unreproducible'] = len(unreproducible)
+        if unreproducible and not concrete:
+            print(f'NOTE property={pid} {len(unreproducible)} observation(s) failed the oracle once and passed on 2 immediate '
+                  f're-runs of the same case (not reported; kept in the evidence file)')
+
     if not concrete and (broken or diffs):
         # the tie is broken: look for a concrete failing input on the real code
         if fallback:
@@ -452,6 +478,7 @@ def main(prop, argv):
             'search_cases': stats.get('search_cases', 0),
             'exhaustive': bool(getattr(prop, 'EXHAUSTIVE', False)),
             'tie_broken': broken,
+            'unreproducible_observations': unreproducible[:3],
             'tie': ('correspondence-only: ' + '; '.join(primary_failure))[:1500] if fallback else 'translation regenerated from the current source + correspondence',
         },
         'assumptions': list(getattr(prop, 'ASSUMPTIONS', [])),
